@@ -133,6 +133,26 @@ impl Obj {
         self.secs.len() - 1
     }
 
+    /// Reorder the sections (the null section stays first), remapping `sh_link` and the segments'
+    /// section references; `perm[k]` is the old index of the section that moves to position `k + 1`.
+    /// Call before `finish_names`.
+    pub fn permute_secs(&mut self, perm: &[usize]) {
+        if self.secs.len() <= 2 { return; }
+        assert_eq!(perm.len(), self.secs.len() - 1);
+        let mut new_index = vec![0usize; self.secs.len()];
+        for (k, &old) in perm.iter().enumerate() { new_index[old] = k + 1; }
+        let old_secs = std::mem::take(&mut self.secs);
+        let mut secs = vec![old_secs[0].clone()];
+        for &old in perm { secs.push(old_secs[old].clone()); }
+        for s in secs.iter_mut() {
+            if (s.link as usize) < new_index.len() && s.link != 0 { s.link = new_index[s.link as usize] as u32; }
+        }
+        for g in self.segs.iter_mut() {
+            if let Some(i) = g.sec { g.sec = Some(new_index[i]); }
+        }
+        self.secs = secs;
+    }
+
     /// Append a `.shstrtab` built from the section names and make it e_shstrndx.
     pub fn finish_names(&mut self) -> Vec<u32> {
         let idx = self.add_sec(Sec::new(b".shstrtab", SHT_STRTAB, vec![]));
